@@ -14,6 +14,7 @@ open Srtla Srtla.Gen Srtla.Conn Srtla.Select Srtla.Link Srtla.Sys Srtla.Spec.Cla
 set_option linter.unusedSectionVars false
 
 variable {F : Type}
+variable {fa : List (Nat × Nat)}
 
 /-! ## Score -/
 
@@ -237,11 +238,11 @@ theorem takeBatch_nonempty (l : FLink F) (now : Nat) (h : l.queue.isEmpty = fals
   refine ⟨?_, ?_, ?_, ?_, ?_, ?_, ?_⟩ <;> first | assumption | rfl | trivial
 
 theorem sendConnectionBatch_nonempty (l : FLink F) (now : Nat) (fn : List Nat) (h : l.queue.isEmpty = false) :
-    (sendConnectionBatch l now fn).1 = (l.takeBatch now).1 ∧
-    ((fn.contains l.core.connId = false ∧ (sendConnectionBatch l now fn).2.2.1 = true ∧
-        (sendConnectionBatch l now fn).2.1 = l.queue.map (fun it => (l.core.connId, it.1))) ∨
-     (fn.contains l.core.connId = true ∧ (sendConnectionBatch l now fn).2.2.1 = false ∧
-        (sendConnectionBatch l now fn).2.1 = [])) := by
+    (sendConnectionBatch fa l now fn).1 = (l.takeBatch now).1 ∧
+    ((fn.contains l.core.connId = false ∧ (sendConnectionBatch fa l now fn).2.2.1 = true ∧
+        (sendConnectionBatch fa l now fn).2.1 = l.queue.map (fun it => (l.core.connId, it.1))) ∨
+     (fn.contains l.core.connId = true ∧ (sendConnectionBatch fa l now fn).2.2.1 = false ∧
+        (sendConnectionBatch fa l now fn).2.1 = [])) := by
   have ht := (takeBatch_nonempty l now h).1
   unfold sendConnectionBatch
   generalize l.takeBatch now = r at ht ⊢
@@ -287,7 +288,7 @@ theorem forwardVia_cases (s : Sys F) (sel : Nat) (pkt : List UInt8) (seq : Optio
     rw [if_pos hn]
     obtain ⟨e1, hcase⟩ := sendConnectionBatch_nonempty l1 now s.failNext hne
     obtain ⟨-, tq, tw, tg, -, -, ts⟩ := takeBatch_nonempty l1 now hne
-    generalize sendConnectionBatch l1 now s.failNext = r at e1 hcase
+    generalize sendConnectionBatch s.failAfter l1 now s.failNext = r at e1 hcase
     obtain ⟨l2, wire, ok, fn⟩ := r
     dsimp only at e1 hcase ⊢
     subst e1
@@ -313,7 +314,7 @@ omit [Scalar F] in
 /-- No link is stall-gated ⇒ `send_stall_probes` does nothing. -/
 theorem stallProbesGo_noop (pkt : List UInt8) (seq : Option Nat) (now sel : Nat) (ls : List (FLink F)) (i : Nat)
     (fn : List Nat) (h : ∀ l ∈ ls, l.stallGated = false) :
-    stallProbesGo pkt seq now sel ls i fn = (ls, [], fn) := by
+    stallProbesGo fa pkt seq now sel ls i fn = (ls, [], fn) := by
   induction ls generalizing i with
   | nil => rfl
   | cons l rest ih =>
@@ -1171,7 +1172,7 @@ theorem takeBatch_frame (l : FLink F) (now : Nat) :
   · exact ⟨fw, fg, fc, fp⟩
 
 theorem sendConnectionBatch_fst (l : FLink F) (now : Nat) (fn : List Nat) :
-    (sendConnectionBatch l now fn).1 = (l.takeBatch now).1 := by
+    (sendConnectionBatch fa l now fn).1 = (l.takeBatch now).1 := by
   unfold sendConnectionBatch
   generalize l.takeBatch now = r
   obtain ⟨l1, batch⟩ := r
@@ -1181,14 +1182,14 @@ theorem sendConnectionBatch_fst (l : FLink F) (now : Nat) (fn : List Nat) :
   · split <;> rfl
 
 theorem flushGo_PW (now : Nat) (ls : List (FLink F)) (fn : List Nat) :
-    PW StampRel ls (flushGo now ls fn).1 := by
+    PW StampRel ls (flushGo fa now ls fn).1 := by
   induction ls generalizing fn with
   | nil => exact PW_nil _
   | cons l rest ih =>
     rw [flushGo]
     split
     · have e := sendConnectionBatch_fst l now fn
-      generalize sendConnectionBatch l now fn = r at e ⊢
+      generalize sendConnectionBatch fa l now fn = r at e ⊢
       obtain ⟨l1, wire, ok, fn1⟩ := r
       dsimp only at e ⊢
       subst e
